@@ -56,7 +56,7 @@ CUSTOM_VALUES = [
 ]
 
 ALTS = {
-    'date': [DT(2000, 1, 2)],
+    'date': [DT(2000, 1, 2), DT(999, 12, 31)],      # a year of fewer than four digits still needs four in the text
     'account': ['Assets:A'], 'source_account': ['Equity:B'],
     'currency': ['USD'],
     'currencies': [(), ('USD',), ('USD', 'EUR', 'GBP')],
@@ -87,7 +87,7 @@ PER_CLASS = {
     ('Posting', 'flag'): [None, '!', 'P'], ('Posting', 'number'): [None, D('1'), D('-2.50'), D('0'), D('-0.00')], ('Posting', 'currency'): [None, 'USD'],
     ('Balance', 'number'): [D('1'), D('-2.50')], ('Amount', 'number'): [D('1'), D('-2.50'), D('0'), D('-0.00'), D('-123456789012.123456789012345678')], ('Tolerance', 'number'): [D('0.01')],
     ('UnitPrice', 'number'): [None, D('3')], ('TotalPrice', 'number'): [None, D('3')], ('UnitPrice', 'currency'): [None, 'GBP'], ('TotalPrice', 'currency'): [None, 'GBP'],
-    ('CostSpec', 'currency'): [None, 'EUR'], ('CostSpec', 'date'): [None, DT(2000, 1, 2)], ('CompoundAmount', 'currency'): ['EUR'],
+    ('CostSpec', 'currency'): [None, 'EUR'], ('CostSpec', 'date'): [None, DT(2000, 1, 2), DT(33, 1, 2)], ('CompoundAmount', 'currency'): ['EUR'],
     ('Option', 'value'): ['v', STR_TRICKY], ('Option', 'key'): ['title'], ('Pushmeta', 'value'): [None, 'v', D('-1'), True, DT(2000, 1, 2)],
     ('MetaItem', 'value'): [None, 'v', D('-1'), D('-0.0'), False, DT(2000, 1, 2), lambda: M.Account.from_value('Assets:M'), lambda: M.Amount.from_value(D('-3'), 'USD'),
                             lambda: M.Null.from_default(), STR_TRICKY],
